@@ -18,6 +18,7 @@ func main() {
 		var lwg sync.WaitGroup
 		lwg.Add(1)
 		go func() { defer lwg.Done(); lapseWhileLocked(r) }()
+		closeDuringRoundTrip(r)
 		defer lwg.Wait()
 		n := r.Pick(500, 10000)
 		st := sh.Batch(r, "C08", "hist", n, 8, func(c *ev.Case, i int) sh.Config {
